@@ -106,6 +106,23 @@ func (c *Ctx) c02CaseK(kind string, key, plain, honest, ct []byte, keyed bool) {
 		implC, _, _ := implStreamDecCopy(key, ct)
 		c.Oracle("io.Copy-and-Read-agree", implC == impl, "stream-copy-path-differs", in, "draining the reader with io.Copy gives "+clipN(implC, 80)+" but Read gives "+clipN(impl, 80))
 	}
+	// ... and so must a caller with a buffer of several chunks
+	if len(ct) > chunkSize || c.evals%16 == 0 {
+		r, _ := stream.NewReader(key, bytes.NewReader(ct))
+		var outB []byte
+		var errB error
+		big := make([]byte, 4*chunkSize)
+		for i := 0; i < 1000; i++ {
+			n, e := r.Read(big)
+			outB = append(outB, big[:n]...)
+			if e != nil {
+				errB = e
+				break
+			}
+		}
+		implB := lst(hx(outB), implOutcome(errB))
+		c.Oracle("large-read-buffer-agrees", implB == impl, "stream-large-buffer-differs", in, "reading with a 256 KiB buffer gives "+clipN(implB, 60)+" but io.ReadAll gives "+clipN(impl, 60))
+	}
 	// an altered payload is not accepted either when the source interposes a zero-length read after the final chunk
 	if !same && len(ct) > len(honest) && bytes.HasPrefix(ct, honest) {
 		r, _ := stream.NewReader(key, &zeroReadSrc{data: ct, after: len(honest)})
@@ -124,7 +141,9 @@ func min(a, b int) int {
 }
 
 func checkC02(c *Ctx) {
-	c.rule = "small payloads (0..40 bytes): EVERY single-bit flip, EVERY truncation length, extensions by 1..17 and 65552 bytes (exhaustive); 2- and 3-chunk payloads: flips and truncations at every offset within +-2 of each chunk boundary and sampled interior offsets; ALL sequences up to length 2 (quick) / 3 (thorough) over an alphabet of the file's own chunks and their variants (re-sealed under another counter, with the other final flag, cut short, emptied, bit-flipped, sealed under a foreign key); whole files through age.Decrypt with flips in the payload. distinct_nontrivial = distinct altered ciphertexts."
+	c.rule = "Crypto.chapoly_open vs x/crypto Open on honest / bit-flipped / truncated / shifted ciphertexts (ties C02g.v); small payloads (0..40 bytes): EVERY single-bit flip, EVERY truncation length, extensions by 1..17 and 65552 bytes (exhaustive); 2- and 3-chunk payloads: flips and truncations at every offset within +-2 of each chunk boundary and sampled interior offsets; ALL sequences up to length 2 (quick) / 3 (thorough) over an alphabet of the file's own chunks and their variants (re-sealed under another counter, with the other final flag, cut short, emptied, bit-flipped, sealed under a foreign key); whole files through age.Decrypt with flips in the payload. distinct_nontrivial = distinct altered ciphertexts."
+	// the AEAD of C02g.v (Crypto.chapoly_seal / chapoly_open) against x/crypto on honest and altered ciphertexts
+	c.cryptoCorrespondence(c.vol(12, 200), 0)
 	// (a) small payloads, exhaustive
 	for _, n := range []int{0, 1, 2, 17, 40} {
 		key := c.rng.bytes(32)
@@ -228,6 +247,30 @@ func checkC02(c *Ctx) {
 			}
 		}
 		rec(nil, nil)
+	}
+	// (c2) a long payload (the counter carries into its second byte): dropping or swapping chunks far apart must fail
+	{
+		nChunks := 258
+		key := c.rng.bytes(32)
+		plain := make([]byte, (nChunks-1)*chunkSize+9)
+		for i := range plain {
+			plain[i] = byte(i >> 16)
+		}
+		ct := streamEncrypt(key, plain)
+		cl := chunkSize + 16
+		swap := append([]byte{}, ct...)
+		copy(swap[1*cl:2*cl], ct[256*cl:257*cl])
+		copy(swap[256*cl:257*cl], ct[1*cl:2*cl])
+		drop := append(append([]byte{}, ct[:1*cl]...), ct[256*cl:]...)
+		for name, t := range map[string][]byte{"swap-chunks-1-and-256": swap, "drop-chunks-1-to-255": drop} {
+			r, _ := stream.NewReader(key, bytes.NewReader(t))
+			out, err := io.ReadAll(r)
+			in := map[string]interface{}{"kind": name, "chunks": nChunks}
+			c.Oracle("altered-payload-never-clean-eof", err != nil, "stream-tamper-accepted-long", in, "a reordered / shortened 258-chunk payload decrypted to a clean end of stream")
+			c.Oracle("released-bytes-are-a-prefix", bytes.HasPrefix(plain, out), "stream-wrong-plaintext", in, "released bytes are not a prefix of the plaintext")
+			c.note("long:"+name, true)
+			c.count("long-payload-tamper")
+		}
 	}
 	// (d) whole files through age.Decrypt: flips and truncations after the header
 	for i := 0; i < c.vol(2, 10); i++ {
